@@ -1210,3 +1210,8 @@ V("C03", "stack-vstack-instead-of-hstack", TRJ, "        xyz = np.hstack((self.x
 V("C03", "twin-stack-concatenate-axis-one", TRJ, "        xyz = np.hstack((self.xyz, other.xyz))", "        xyz = np.concatenate((self.xyz, other.xyz), axis=1)", None)
 V("C03", "slice-time-not-sliced", TRJ, "        time = self.time[key]\n        unitcell_lengths, unitcell_angles = None, None", "        time = self.time\n        unitcell_lengths, unitcell_angles = None, None", "C03-R7", "Trajectory.slice")
 V("C10", "y-range-single-copy-offset-in-triclinic-cells", NLC, "            if (usePeriodic && triclinic) {\n                // A voxel", "            if (usePeriodic && triclinic && false) {\n                // A voxel", "C10-R5", "Voxels::getNeighbors")
+
+# ---------------------------------------------------------------- C02-R7 reader buffers
+V("C02", "xtc-skip-buffer-sized-for-selection", "mdtraj/formats/xtc/xtc.pyx", "            xyz_stride = np.empty((1, self.n_atoms, 3), dtype=np.float32)",
+  "            xyz_stride = np.empty((1, n_atoms_to_read, 3), dtype=np.float32)", "C02-R7", "XTCTrajectoryFile._read")
+V("C02", "twin-xtc-skip-buffer-renamed", "mdtraj/formats/xtc/xtc.pyx", None, None, None, edits=[("xyz_stride", "skipped_frame")], count="all")
